@@ -92,9 +92,10 @@ add("C04", "framing violations are fail-stop",
     ["RSV1 on a control or continuation frame while permessage-deflate is negotiated", "a 1-byte close body", "close codes 1012-1014"])
 
 add("C05", "no silent truncation",
-    [H("vfH_fault_read", ["fault-read-failed-message", "fault-read-all-complete"], 400), TWIN("vfH_fault_read")],
+    [H("vfH_fault_read", ["fault-read-failed-message"], 200, {"focus": 1}), H("vfH_fault_read", ["fault-read-failed-message", "fault-read-all-complete"], 400), TWIN("vfH_fault_read")],
     [H("vfH_fault_read", ["fault-read-failed-message"], 2400, {"tier": 1})],
-    ["4 stream shapes (unfragmented + fragmented with ping; fragmented with a non-final frame larger than the read buffer; 16-bit length larger than the read buffer; stored-block compressed fragmented) x every cut offset (quick: all offsets for streams <= 40 bytes, every structural boundary +-1 for the long ones; thorough: all offsets) x 4 fault kinds (EOF after the bytes, EOF together with the last bytes, arbitrary error, timeout) x chunking {max, 1 byte, first header alone} x {ReadMessage, NextReader + reads of 1, 125, 250 bytes}; 3 further NextReader calls after the failure"],
+    ["focused program (run first, on its own): a message whose payload embeds a well-formed text frame and a close frame is abandoned after one byte while a transient fault interrupts the skip at every offset: what is left of the payload is never parsed as a frame (kept separate because a reader that swallows the skip error parses symbolic payload as headers, an explosion in which the general program may not meet the violating path within its budget)",
+     "4 stream shapes (unfragmented + fragmented with ping; fragmented with a non-final frame larger than the read buffer; 16-bit length larger than the read buffer; stored-block compressed fragmented) x every cut offset (quick: all offsets for streams <= 40 bytes, every structural boundary +-1 for the long ones; thorough: all offsets) x 4 fault kinds (EOF after the bytes, EOF together with the last bytes, arbitrary error, timeout) x chunking {max, 1 byte, first header alone} x {ReadMessage, NextReader + reads of 1, 125, 250 bytes}; 3 further NextReader calls after the failure"],
     ["quick tier: 3 later calls after the failure; the thorough tier runs one configuration up to the documented panic at the 1000th failed read", "transports that violate the io.Reader contract"],
     ASSUME_COMMON, STUB_COMMON + [STUB_FLATE],
     LV + "Fault position, kind and chunking are enumerated; payloads and keys are symbolic.",
